@@ -5,6 +5,7 @@ import ExponaxModel.Proofs.ReadOffForcing
 import ExponaxModel.Proofs.NonlinFunsEq
 import ExponaxModel.Proofs.LaminarEquilibriaExamples
 import ExponaxModel.Proofs.SmallGaps3Shear
+import ExponaxModel.Proofs.SpectralLayoutEq
 /-
 C12 — forcing terms inject exactly the documented field.
 `Gen.Misc.forced_step*` are regenerated from `exponax/_forced_stepper.py`; `Gen.Etdrk.*` from `etdrk/`.
@@ -281,5 +282,22 @@ theorem C12_discrete_integration_by_parts :
                     0 :=
   @Exponax.SmallGaps3.sum_real_imag_mul_zero
 
+
+
+/-! ### the scaling the injection is multiplied with: `build_scaling_array(mode="coef_extraction")`, REGENERATED from
+`_spectral.py` on every run, is the model's `Layout.scaling … 2` that the regenerated injection arrays above use, and at the
+forced 2-D mode `(0, m)` it is `N·N/2` for EVERY `0 < m` with `2m < N` — also the highest wavenumber `(N−1)/2` of an odd
+grid, which carries no Nyquist special case -/
+theorem C12_generated_injection_scaling (D N : ℕ) (hD : 1 ≤ D) (hN : 0 < N) (h : List ℕ) :
+    Gen.SpectralLayout.build_scaling_array D N "coef_extraction" "ij" h = some (Layout.scaling D N 2 h : ℚ) :=
+  build_scaling_array_coef_extraction D N hD hN h
+
+theorem C12_injection_scaling_value_2d (c : Nonlin.Cfg ℂ) (hD : c.D = 2) (h m : ℕ) (hm : 0 < m) (hmN : 2 * m < c.N)
+    (hk0 : Nonlin.kInt c 0 h = 0) (hk1 : Nonlin.kInt c 1 h = (m : ℤ)) :
+    (Layout.scaling c.D c.N 2 (Layout.unflatten (Layout.wavenumberShape c.D c.N) h) : ℂ) = (c.N : ℂ) * ((c.N : ℂ) / 2) :=
+  Nonlin.scaling_at_kolmogorov_2d c hD h m hm hmN hk0 hk1
+
+/-- non-vacuity: an odd grid and its highest wavenumber -/
+example : (0 : ℕ) < 4 ∧ 2 * 4 < 9 := by decide
 
 end Exponax
